@@ -67,7 +67,7 @@ def run(res, tier):
     ]
     conc.concurrent_check(
         res, 'C14', tier, 'c14.cpp', 'comutex', RULES,
-        quick_args=['--mode', 'dfs', '--pb', '2', '--wb', '1'],
+        quick_args=['--mode', 'dfs', '--pb', '2', '--wb', '1', '--max-exec', '4000'],
         thorough_args=['--mode', 'dfs', '--pb', '3', '--wb', '1', '--max-exec', '100000'],
         search_args=[['--mode', 'dfs', '--pb', '3', '--wb', '1', '--max-exec', '60000'],
                      ['--mode', 'random', '--random-runs', '3000']],
